@@ -10,6 +10,7 @@ import (
 	"verif/harness/c04"
 	"verif/harness/c05"
 	"verif/harness/c07"
+	"verif/harness/c11"
 	"verif/harness/c13"
 	"verif/harness/c14"
 	"verif/harness/c16"
@@ -32,6 +33,7 @@ func main() {
 	in := fs.String("in", "", "scenario input (from TLC)")
 	mode := fs.String("mode", "", "driver mode")
 	stride := fs.Int("stride", 1, "sweep stride")
+	start := fs.Int("start", 0, "first case to run")
 	out2 := fs.String("out2", "", "second trace output")
 	fs.Parse(os.Args[2:])
 	_ = in
@@ -45,6 +47,12 @@ func main() {
 		}
 	case "c05":
 		c05.Run(*out, *mode)
+	case "c11":
+		if *mode == "schema" {
+			c11.Schema()
+			return
+		}
+		os.Exit(c11.Run(*in, *out, *out2, *start))
 	case "c07":
 		c07.Run(*out)
 	case "c13":
